@@ -148,6 +148,8 @@ class LastFrac(HoldoutMethod):
 
     def __call__(self, items: ItemList) -> ItemList:
         n = round(len(items) * self.fraction)
+        if len(items) <= n:
+            return items
 
         col = items.field(self.field)
         if col is None:
